@@ -534,10 +534,11 @@ def shrink_candidates(content):
         simple = ["a", 0]
         for a in range(1, len(f["args"])):
             simple = ["+", simple, ["a", a]]
-        if f["e"] != simple and not f.get("bad"):
+        if f["e"] != simple and not f.get("bad") and (f.get("name") is None or [g.get("name") for g in fns(content)].count(f.get("name")) == 1):
             f["e"] = simple
             yield c
-        if len(f["args"]) > 1 and not f.get("bad"):
+        names = [g.get("name") for g in fns(content)]
+        if len(f["args"]) > 1 and not f.get("bad") and (f.get("name") is None or names.count(f.get("name")) == 1):
             c2 = copy.deepcopy(content)
             f2 = list(fns(c2))[i]
             f2["args"] = f2["args"][:1]
